@@ -688,6 +688,7 @@ func (c *Checker) checkMethodBodies() {
 			if len(method.UsedInConstants) > 0 {
 				// use the method cache to store methods
 				// that are used in constant definitions and have to be checked
+				concurrent.VerifPoint("checker.methodCachePush")
 				c.methodCache.Push(method)
 			}
 		},
@@ -2294,6 +2295,7 @@ func (c *Checker) checkMethodDefinition(node *ast.MethodDefinitionNode, method *
 	method.CalledMethods = c.methodCache.Slice
 	c.methodCache.Slice = nil
 
+	concurrent.VerifPoint("checker.beforeCompileMethodBody")
 	if c.shouldCompile() && method.IsCompilable() {
 		method.Body = c.compiler.CompileMethodBody(node, value.ToSymbol(method.NamespacedName())).Method()
 	}
@@ -3274,6 +3276,7 @@ func (c *Checker) getMethodInNamespace(namespace types.Namespace, typ types.Type
 }
 
 func (c *Checker) replaceTypeParametersInMethodCopy(method *types.Method, typeArgs types.TypeArgumentMap, replaceMethodTypeParams bool) *types.Method {
+	concurrent.VerifPoint("checker.replaceTypeParametersInMethodCopy")
 	var methodCopy *types.Method
 
 	for i, typeParam := range method.TypeParameters {
